@@ -6,61 +6,71 @@ Import ListNotations.
 Open Scope string_scope.
 Set Implicit Arguments.
 
-Local Notation rq := (@rd_quat Qc).
-Local Notation r1 := (@rd_v1 Qc).  Local Notation r2 := (@rd_v2 Qc).  Local Notation r3 := (@rd_v3 Qc).  Local Notation r4 := (@rd_v4 Qc).
-Local Notation rp1 := (@rd_p1 Qc). Local Notation rp2 := (@rd_p2 Qc). Local Notation rp3 := (@rd_p3 Qc).
-Local Notation rs := (@rd_s Qc).
-Definition ov1' (v : V1 Qc) := vq (v1_list v).
+Section G.
+  Variable F : Type.
+  Variable O : Ops F.
+  Variable T : Trig F.
+  Variable A : Approx F.
+  Variable toNat : F -> nat.
 
-Definition tab_c11 (o : Orc) : list (string * (list Qc -> val)) :=
-  let T := TrigQ o in [
-  ("v1_magnitude", run1 r1 (fun v => os (v1_magnitude O T v)));
-  ("v2_magnitude", run1 r2 (fun v => os (v2_magnitude O T v)));
-  ("v3_magnitude", run1 r3 (fun v => os (v3_magnitude O T v)));
-  ("v4_magnitude", run1 r4 (fun v => os (v4_magnitude O T v)));
-  ("quat_magnitude", run1 rq (fun v => os (quat_magnitude O T v)));
-  ("v1_magnitude2", run1 r1 (fun v => os (v1_magnitude2 O v)));
-  ("v2_magnitude2", run1 r2 (fun v => os (v2_magnitude2 O v)));
-  ("v3_magnitude2", run1 r3 (fun v => os (v3_magnitude2 O v)));
-  ("v4_magnitude2", run1 r4 (fun v => os (v4_magnitude2 O v)));
-  ("quat_magnitude2", run1 rq (fun v => os (quat_magnitude2 O v)));
-  ("v1_normalize", run1 r1 (fun v => ov1' (v1_normalize O T v)));
-  ("v2_normalize", run1 r2 (fun v => ov2 (v2_normalize O T v)));
-  ("v3_normalize", run1 r3 (fun v => ov3 (v3_normalize O T v)));
-  ("v4_normalize", run1 r4 (fun v => ov4 (v4_normalize O T v)));
-  ("quat_normalize", run1 rq (fun v => oq (quat_normalize O T v)));
-  ("v1_normalize_to", run2 r1 rs (fun v m => ov1' (v1_normalize_to O T v m)));
-  ("v2_normalize_to", run2 r2 rs (fun v m => ov2 (v2_normalize_to O T v m)));
-  ("v3_normalize_to", run2 r3 rs (fun v m => ov3 (v3_normalize_to O T v m)));
-  ("v4_normalize_to", run2 r4 rs (fun v m => ov4 (v4_normalize_to O T v m)));
-  ("quat_normalize_to", run2 rq rs (fun v m => oq (quat_normalize_to O T v m)));
-  ("v1_distance", run2 r1 r1 (fun a b => os (v1_distance O T a b)));
-  ("v2_distance", run2 r2 r2 (fun a b => os (v2_distance O T a b)));
-  ("v3_distance", run2 r3 r3 (fun a b => os (v3_distance O T a b)));
-  ("v4_distance", run2 r4 r4 (fun a b => os (v4_distance O T a b)));
-  ("p1_distance", run2 rp1 rp1 (fun a b => os (p1_distance O T a b)));
-  ("p2_distance", run2 rp2 rp2 (fun a b => os (p2_distance O T a b)));
-  ("p3_distance", run2 rp3 rp3 (fun a b => os (p3_distance O T a b)));
-  ("quat_distance", run2 rq rq (fun a b => os (quat_distance O T a b)));
-  ("v1_distance2", run2 r1 r1 (fun a b => os (v1_distance2 O a b)));
-  ("v2_distance2", run2 r2 r2 (fun a b => os (v2_distance2 O a b)));
-  ("v3_distance2", run2 r3 r3 (fun a b => os (v3_distance2 O a b)));
-  ("v4_distance2", run2 r4 r4 (fun a b => os (v4_distance2 O a b)));
-  ("p1_distance2", run2 rp1 rp1 (fun a b => os (p1_distance2 O a b)));
-  ("p2_distance2", run2 rp2 rp2 (fun a b => os (p2_distance2 O a b)));
-  ("p3_distance2", run2 rp3 rp3 (fun a b => os (p3_distance2 O a b)));
-  ("quat_distance2", run2 rq rq (fun a b => os (quat_distance2 O a b)));
-  ("v1_angle", run2 r1 r1 (fun a b => os (v1_angle O T a b)));
-  ("v2_angle", run2 r2 r2 (fun a b => os (v2_angle O T a b)));
-  ("v3_angle", run2 r3 r3 (fun a b => os (v3_angle O T a b)));
-  ("v4_angle", run2 r4 r4 (fun a b => os (v4_angle O T a b)));
-  ("quat_angle", run2 rq rq (fun a b => os (quat_angle O T a b)));
-  ("v1_project_on", run2 r1 r1 (fun a b => ov1' (v1_project_on O a b)));
-  ("v2_project_on", run2 r2 r2 (fun a b => ov2 (v2_project_on O a b)));
-  ("v3_project_on", run2 r3 r3 (fun a b => ov3 (v3_project_on O a b)));
-  ("v4_project_on", run2 r4 r4 (fun a b => ov4 (v4_project_on O a b)));
-  ("quat_project_on", run2 rq rq (fun a b => oq (quat_project_on O a b)))
+
+  Local Notation rq := (@rd_quat F).
+  Local Notation r1 := (@rd_v1 F).    Local Notation r2 := (@rd_v2 F).    Local Notation r3 := (@rd_v3 F).    Local Notation r4 := (@rd_v4 F).
+  Local Notation rp1 := (@rd_p1 F).   Local Notation rp2 := (@rd_p2 F).   Local Notation rp3 := (@rd_p3 F).
+  Local Notation rs := (@rd_s F).
+Definition gv1' (v : V1 F) := GQ (v1_list v).
+
+Definition gtab_c11 : list (string * (list F -> gval F)) := [
+  ("v1_magnitude", grun1 r1 (fun v => gs (v1_magnitude O T v)));
+  ("v2_magnitude", grun1 r2 (fun v => gs (v2_magnitude O T v)));
+  ("v3_magnitude", grun1 r3 (fun v => gs (v3_magnitude O T v)));
+  ("v4_magnitude", grun1 r4 (fun v => gs (v4_magnitude O T v)));
+  ("quat_magnitude", grun1 rq (fun v => gs (quat_magnitude O T v)));
+  ("v1_magnitude2", grun1 r1 (fun v => gs (v1_magnitude2 O v)));
+  ("v2_magnitude2", grun1 r2 (fun v => gs (v2_magnitude2 O v)));
+  ("v3_magnitude2", grun1 r3 (fun v => gs (v3_magnitude2 O v)));
+  ("v4_magnitude2", grun1 r4 (fun v => gs (v4_magnitude2 O v)));
+  ("quat_magnitude2", grun1 rq (fun v => gs (quat_magnitude2 O v)));
+  ("v1_normalize", grun1 r1 (fun v => gv1' (v1_normalize O T v)));
+  ("v2_normalize", grun1 r2 (fun v => gv2 (v2_normalize O T v)));
+  ("v3_normalize", grun1 r3 (fun v => gv3 (v3_normalize O T v)));
+  ("v4_normalize", grun1 r4 (fun v => gv4 (v4_normalize O T v)));
+  ("quat_normalize", grun1 rq (fun v => gq (quat_normalize O T v)));
+  ("v1_normalize_to", grun2 r1 rs (fun v m => gv1' (v1_normalize_to O T v m)));
+  ("v2_normalize_to", grun2 r2 rs (fun v m => gv2 (v2_normalize_to O T v m)));
+  ("v3_normalize_to", grun2 r3 rs (fun v m => gv3 (v3_normalize_to O T v m)));
+  ("v4_normalize_to", grun2 r4 rs (fun v m => gv4 (v4_normalize_to O T v m)));
+  ("quat_normalize_to", grun2 rq rs (fun v m => gq (quat_normalize_to O T v m)));
+  ("v1_distance", grun2 r1 r1 (fun a b => gs (v1_distance O T a b)));
+  ("v2_distance", grun2 r2 r2 (fun a b => gs (v2_distance O T a b)));
+  ("v3_distance", grun2 r3 r3 (fun a b => gs (v3_distance O T a b)));
+  ("v4_distance", grun2 r4 r4 (fun a b => gs (v4_distance O T a b)));
+  ("p1_distance", grun2 rp1 rp1 (fun a b => gs (p1_distance O T a b)));
+  ("p2_distance", grun2 rp2 rp2 (fun a b => gs (p2_distance O T a b)));
+  ("p3_distance", grun2 rp3 rp3 (fun a b => gs (p3_distance O T a b)));
+  ("quat_distance", grun2 rq rq (fun a b => gs (quat_distance O T a b)));
+  ("v1_distance2", grun2 r1 r1 (fun a b => gs (v1_distance2 O a b)));
+  ("v2_distance2", grun2 r2 r2 (fun a b => gs (v2_distance2 O a b)));
+  ("v3_distance2", grun2 r3 r3 (fun a b => gs (v3_distance2 O a b)));
+  ("v4_distance2", grun2 r4 r4 (fun a b => gs (v4_distance2 O a b)));
+  ("p1_distance2", grun2 rp1 rp1 (fun a b => gs (p1_distance2 O a b)));
+  ("p2_distance2", grun2 rp2 rp2 (fun a b => gs (p2_distance2 O a b)));
+  ("p3_distance2", grun2 rp3 rp3 (fun a b => gs (p3_distance2 O a b)));
+  ("quat_distance2", grun2 rq rq (fun a b => gs (quat_distance2 O a b)));
+  ("v1_angle", grun2 r1 r1 (fun a b => gs (v1_angle O T a b)));
+  ("v2_angle", grun2 r2 r2 (fun a b => gs (v2_angle O T a b)));
+  ("v3_angle", grun2 r3 r3 (fun a b => gs (v3_angle O T a b)));
+  ("v4_angle", grun2 r4 r4 (fun a b => gs (v4_angle O T a b)));
+  ("quat_angle", grun2 rq rq (fun a b => gs (quat_angle O T a b)));
+  ("v1_project_on", grun2 r1 r1 (fun a b => gv1' (v1_project_on O a b)));
+  ("v2_project_on", grun2 r2 r2 (fun a b => gv2 (v2_project_on O a b)));
+  ("v3_project_on", grun2 r3 r3 (fun a b => gv3 (v3_project_on O a b)));
+  ("v4_project_on", grun2 r4 r4 (fun a b => gv4 (v4_project_on O a b)));
+  ("quat_project_on", grun2 rq rq (fun a b => gq (quat_project_on O a b)))
 ].
+End G.
+
+Definition tab_c11 (o : Orc) : list (string * (list Qc -> val)) := qtab (gtab_c11 OpsQ (TrigQ o)).
 
 Definition run_c11 : runner := fun f o args =>
   match dispatch (tab_c11 o) f with Some h => h args | None => VBad end.
